@@ -871,3 +871,367 @@ Section FlatMain.
     intros g r e c Hg Hr He Hgt. apply (Hd g r e c Hg Hr He). apply (Hk g r c Hg Hr Hgt).
   Qed.
 End FlatMain.
+
+(* ---- in a well-formed tree every event has its own path ---- *)
+Section EvPaths.
+  Variable matches : list text -> text -> bool.
+  Variable C : Type.
+  Notation node := (node C).
+  Notation events := (events matches C).
+  Definition ev_path (e : ev) : path := match e with EvFile p _ => p | EvDir p _ => p end.
+  Lemma map_flat_map_comm {A B D} (f : B -> D) (g : A -> list B) l : map f (flat_map g l) = flat_map (fun x => map f (g x)) l.
+  Proof. induction l as [|a l IH]; [reflexivity|]. cbn. rewrite map_app, IH. reflexivity. Qed.
+
+  Lemma files_of_ev_files evs q : In q (files_of evs) <-> exists c, In (q, c) (ev_files evs).
+  Proof.
+    unfold files_of, ev_files. rewrite in_flat_map. split.
+    - intros [e [He Hq]]. destruct e as [p c|]; [|destruct Hq]. destruct Hq as [<-|[]]. exists c. apply in_flat_map. exists (EvFile p c). split; [exact He|left; reflexivity].
+    - intros [c Hc]. apply in_flat_map in Hc. destruct Hc as [e [He Hq]]. exists e. split; [exact He|]. destruct e as [p c0|]; [|destruct Hq].
+      destruct Hq as [E|[]]. injection E as -> _. left. reflexivity.
+  Qed.
+  Lemma ev_paths_split evs q : In q (map ev_path evs) <-> In q (files_of evs) \/ In q (dirs_of evs).
+  Proof.
+    induction evs as [|e evs IH]; cbn [map files_of dirs_of flat_map In]; [tauto|].
+    rewrite !in_app_iff, IH. destruct e; cbn [ev_path In]; tauto.
+  Qed.
+  Lemma ev_below spec : forall t p q, In q (map ev_path (events spec p t)) -> exists rel, q = p ++ rel.
+  Proof.
+    induction t as [c|h kids IH] using node_ind'; intros p q H; [destruct H|].
+    apply ev_paths_split in H. rewrite files_dir, dirs_dir in H.
+    assert (Hsub : forall x, In x (vis_of matches C spec p kids) -> In q (map ev_path (sub_evs C x)) -> exists rel, q = p ++ rel).
+    { intros x Hx Hq. unfold vis_of in Hx. apply filter_In in Hx. destruct Hx as [Hx _]. apply sort_In in Hx.
+      unfold subs in Hx. apply in_map_iff in Hx. destruct Hx as [nk [<- Hin]]. unfold sub_evs in Hq. cbn [fst snd] in Hq.
+      rewrite Forall_forall in IH. specialize (IH nk Hin). destruct (snd nk) eqn:E; [destruct Hq|].
+      destruct (IH _ _ Hq) as [rel ->]. exists (fst nk :: rel). rewrite <- app_assoc. reflexivity. }
+    destruct H as [[[x [Hx H]]|[x [c [_ [_ ->]]]]]|[[x [Hx H]]| ->]].
+    - apply (Hsub x Hx). apply ev_paths_split. left. exact H.
+    - eauto.
+    - apply (Hsub x Hx). apply ev_paths_split. right. exact H.
+    - exists []. rewrite app_nil_r. reflexivity.
+  Qed.
+
+  Theorem ev_paths_NoDup spec : forall t p, wf_tree C t -> NoDup (map ev_path (events spec p t)).
+  Proof.
+    induction t as [c|h kids IH] using node_ind'; intros p Hw; [constructor|].
+    inversion Hw as [|? ? Hnames Hkids]; subst.
+    rewrite (events_dir' matches C), !map_app. cbn [map ev_path].
+    set (V := vis_of matches C spec p kids).
+    assert (HV : forall x, In x V -> In (fst x, fst (snd x)) kids /\ snd (snd x) = events spec (p ++ [fst x]) (fst (snd x))).
+    { intros x Hin. unfold V, vis_of in Hin. apply filter_In in Hin. destruct Hin as [Hin _]. apply sort_In in Hin.
+      unfold subs in Hin. apply in_map_iff in Hin. destruct Hin as [nk [<- Hin]]. cbn [fst snd]. destruct nk; auto. }
+    assert (HVn : NoDup V).
+    { unfold V, vis_of. apply NoDup_filter. eapply Permutation_NoDup; [apply sort_perm|].
+      unfold subs. apply FinFun.Injective_map_NoDup.
+      - intros a b E. injection E as E1 E2 _. destruct a, b; cbn in *; congruence.
+      - clear -Hnames. induction kids as [|nk ks IHk]; [constructor|]. cbn in Hnames. inversion Hnames; subst.
+        constructor; [|apply IHk; assumption]. intros Hin. apply H1. apply in_map. exact Hin. }
+    assert (Hname_inj : forall x y, In x V -> In y V -> fst x = fst y -> x = y).
+    { intros x y Hx Hy E. destruct (HV x Hx) as [Kx Sx]. destruct (HV y Hy) as [Ky Sy].
+      assert (Hk : (fst x, fst (snd x)) = (fst y, fst (snd y))) by (eapply (NoDup_key_inj (@fst text node) kids); eauto).
+      injection Hk as _ Hk2. destruct x as [nx [kx ex]], y as [ny [ky ey]]. cbn in *. subst. reflexivity. }
+    rewrite !map_flat_map_comm.
+    apply NoDup_app_intro; [|apply NoDup_app_intro|].
+    - apply NoDup_flat_map_disjoint; [exact HVn| |].
+      + intros x Hx. destruct (HV x Hx) as [Hk Hs]. unfold sub_evs. destruct (fst (snd x)) as [c1|h1 k1] eqn:E; [constructor|].
+        rewrite Hs. rewrite Forall_forall in IH, Hkids. apply (IH (fst x, Dir h1 k1) Hk). apply (Hkids _ Hk).
+      + intros x y b Hx Hy Hxy Hbx Hby. apply Hxy. apply (Hname_inj x y Hx Hy).
+        destruct (HV x Hx) as [_ Sx]. destruct (HV y Hy) as [_ Sy]. unfold sub_evs in Hbx, Hby.
+        destruct (fst (snd x)) eqn:Ex; [destruct Hbx|]. destruct (fst (snd y)) eqn:Ey; [destruct Hby|].
+        rewrite Sx in Hbx. rewrite Sy in Hby. destruct (ev_below spec _ _ _ Hbx) as [r1 E1]. destruct (ev_below spec _ _ _ Hby) as [r2 E2].
+        rewrite E1, <- !app_assoc in E2. apply app_inv_head in E2. cbn in E2. congruence.
+    - apply NoDup_flat_map_disjoint; [exact HVn| |].
+      + intros x _. destruct (fst (snd x)); cbn; [constructor; [intros []|constructor]|constructor].
+      + intros x y b Hx Hy Hxy Hbx Hby. apply Hxy. apply (Hname_inj x y Hx Hy).
+        destruct (fst (snd x)); [|destruct Hbx]. destruct (fst (snd y)); [|destruct Hby]. cbn in Hbx, Hby.
+        destruct Hbx as [<-|[]]. destruct Hby as [E|[]]. apply app_inv_head in E. congruence.
+    - constructor; [intros []|constructor].
+    - intros q Hq [->|[]]. apply in_flat_map in Hq. destruct Hq as [x [_ Hq]]. destruct (fst (snd x)); [|destruct Hq].
+      cbn in Hq. destruct Hq as [E|[]]. apply (f_equal (@length text)) in E. rewrite app_length in E. cbn in E. lia.
+    - intros q Hq1 Hq2. apply in_app_or in Hq2. destruct Hq2 as [Hq2|[<-|[]]].
+      + apply in_flat_map in Hq1. destruct Hq1 as [x [Hx Hq1]]. apply in_flat_map in Hq2. destruct Hq2 as [y [Hy Hq2]].
+        destruct (HV x Hx) as [_ Sx]. unfold sub_evs in Hq1. destruct (fst (snd x)) eqn:Ex; [destruct Hq1|].
+        destruct (fst (snd y)) eqn:Ey; [|destruct Hq2]. cbn in Hq2. destruct Hq2 as [<-|[]].
+        rewrite Sx in Hq1. destruct (ev_below spec _ _ _ Hq1) as [r1 E1]. rewrite <- app_assoc in E1. apply app_inv_head in E1. cbn in E1.
+        injection E1 as E1 _. assert (x = y) by (apply Hname_inj; auto). subst y. congruence.
+      + apply in_flat_map in Hq1. destruct Hq1 as [x [Hx Hq1]]. destruct (HV x Hx) as [_ Sx]. unfold sub_evs in Hq1.
+        destruct (fst (snd x)) eqn:Ex; [destruct Hq1|]. rewrite Sx in Hq1. destruct (ev_below spec _ _ _ Hq1) as [r1 E1].
+        apply (f_equal (@length text)) in E1. rewrite !app_length in E1. cbn in E1. lia.
+  Qed.
+End EvPaths.
+
+(* ---- on a well-formed tree no two events share a record, so each record holds exactly one event's entries: the
+   validation of the session never aborts a flat run ---- *)
+Section Flat3.
+  Variable Hb : fmt -> bytes -> bytes.
+  Variable matches : list text -> text -> bool.
+  Variable C : Type.
+  Variable cdig : C -> text.
+  Variable ser : gen -> C.
+  Notation node := (node C).
+  Notation events := (events matches C).
+  Variable h0 : lhist.
+  Hypothesis h0_root : lh_root h0 = [].
+  Hypothesis h0_parent : lh_parent h0 = None.
+
+  Lemma add_entries_fresh rs p d sz es : ~ In p (map r_path rs) -> add_entries rs p d sz es = rs ++ [mkRecord p d sz es None].
+  Proof.
+    induction rs as [|r rs IH]; intros Hn; cbn [add_entries app]; [reflexivity|].
+    destruct (path_eqb_spec (r_path r) p) as [E|E]; [exfalso; apply Hn; left; exact E|].
+    rewrite IH; [reflexivity|]. intros H. apply Hn. right. exact H.
+  Qed.
+
+  Section Exact.
+    Variable R : path -> list entry -> Prop.
+    Lemma fold_events_R_exact fmts no_dh spec t : forall evs s fails,
+      NoDup (map ev_path evs) -> (forall r, In r (recs s) -> ~ In (r_path r) (map ev_path evs)) -> all_R R (recs s) ->
+      (forall p c, In (p, c) (ev_files evs) -> p <> [] /\ R p (fst (seal (lh_gens h0) p (fun f => digest_text Hb f c) fmts))) ->
+      (forall p, In p (dirs_of evs) -> R p (match dir_entries Hb matches C no_dh spec fmts p t with Some es => es | None => [] end)) ->
+      all_R R (recs (fst (fold_left (process_event Hb matches C [h0] fmts no_dh spec t) evs (s, fails)))).
+    Proof.
+      induction evs as [|e evs IH]; intros s fails Hnd Hfresh Hs Hf Hd; cbn [fold_left]; [exact Hs|].
+      cbn [map] in Hnd. inversion Hnd as [|? ? Hp Hnd']; subst.
+      assert (Hstep : all_R R (recs (fst (process_event Hb matches C [h0] fmts no_dh spec t (s, fails) e))) /\
+                      (forall r, In r (recs (fst (process_event Hb matches C [h0] fmts no_dh spec t (s, fails) e))) -> ~ In (r_path r) (map ev_path evs))).
+      { assert (Hnew : ~ In (ev_path e) (map r_path (recs s))).
+        { intros H. apply in_map_iff in H. destruct H as [r [E Hr]]. apply (Hfresh r Hr). left. symmetry. exact E. }
+        assert (Hold : forall r, In r (recs s) -> ~ In (r_path r) (map ev_path evs)).
+        { intros r Hr H. apply (Hfresh r Hr). right. exact H. }
+        destruct e as [p c|p kids]; cbn [process_event ev_path] in *.
+        - unfold seal_file. rewrite (route_flat h0), h0_root. cbn [strip_prefix].
+          assert (Hsp : strip_prefix [] p = p) by (destruct p; reflexivity). rewrite ?Hsp.
+          destruct (Hf p c (or_introl eq_refl)) as [Hne HR].
+          destruct (seal (lh_gens h0) p (fun f => digest_text Hb f c) fmts) as [es res]. cbn [fst] in *.
+          destruct es as [|e0 es']; [split; assumption|]. rewrite recs_sess_add. destruct p as [|n p']; [congruence|].
+          rewrite (add_entries_fresh _ _ _ _ _ Hnew). split.
+          + intros r Hr. apply in_app_or in Hr. destruct Hr as [Hr|[<-|[]]]; [apply Hs; exact Hr|exact HR].
+          + intros r Hr. apply in_app_or in Hr. destruct Hr as [Hr|[<-|[]]]; [apply Hold; exact Hr|exact Hp].
+        - unfold record_dir. rewrite (route_flat h0), h0_root, h0_parent.
+          assert (Hsp : strip_prefix [] p = p) by (destruct p; reflexivity). rewrite ?Hsp.
+          assert (Hsame : forall es, match p with [] => sess_add s [] p true None es | _ :: _ => sess_add s [] p true None es end = sess_add s [] p true None es) by (intros; destruct p; reflexivity).
+          rewrite Hsame. cbn [fst]. rewrite recs_sess_add. destruct p as [|n p']; [split; assumption|].
+          rewrite (add_entries_fresh _ _ _ _ _ Hnew). split.
+          + intros r Hr. apply in_app_or in Hr. destruct Hr as [Hr|[<-|[]]]; [apply Hs; exact Hr|]. cbn [r_path r_entries]. apply Hd. left. reflexivity.
+          + intros r Hr. apply in_app_or in Hr. destruct Hr as [Hr|[<-|[]]]; [apply Hold; exact Hr|exact Hp]. }
+      destruct (process_event Hb matches C [h0] fmts no_dh spec t (s, fails) e) as [s1 f1]. cbn [fst] in Hstep. destruct Hstep as [Hs1 Hfresh1].
+      apply IH; auto.
+      - intros p c Hin. apply Hf. destruct e; cbn; [right|]; exact Hin.
+      - intros p Hin. apply Hd. destruct e; cbn; [|right]; exact Hin.
+    Qed.
+  End Exact.
+
+  (* what _validate_new_hash_list demands of one record *)
+  Definition Rval (p : path) (es : list entry) : Prop :=
+    has_action New es = true -> has_action Verified es = true /\ has_action Failed es = false.
+  Lemma validate_records_Rval rs : all_R Rval rs -> exists rs', validate_records rs = Some rs'.
+  Proof.
+    induction rs as [|r rs IH]; intros H; cbn [validate_records]; [eauto|].
+    destruct IH as [rs' ->]; [intros r' Hr'; apply H; right; exact Hr'|].
+    pose proof (H r (or_introl eq_refl)) as Hr. unfold Rval in Hr. unfold validate_record.
+    destruct (has_action New (r_entries r)) eqn:En; [|eauto]. destruct (Hr eq_refl) as [-> ->]. cbn. eauto.
+  Qed.
+  Lemma seal_Rval gens p dg req : Rval p (fst (seal gens p dg req)).
+  Proof.
+    intros Hn. apply has_action_In in Hn. destruct Hn as [e [He Ha]].
+    destruct (seal_new_needs_verified gens p dg req e He Ha) as [e1 [H1 A1]]. split; [apply has_action_In; eauto|].
+    destruct (has_action Failed _) eqn:Ef; [|reflexivity]. apply has_action_In in Ef. destruct Ef as [e2 [H2 A2]].
+    exfalso. exact (seal_failed_blocks_new gens p dg req e2 e H2 A2 He Ha).
+  Qed.
+
+  Theorem create_flat_never_aborts t req no_dh ip ifl :
+    wf_tree C t -> is_dir C t = true -> load C cdig t = inl [h0] ->
+    o_outcome (snd (create_folder Hb matches C cdig ser t req no_dh false ip ifl)) <> Abort.
+  Proof.
+    intros Hwf Hd Hl. unfold create_folder. rewrite Hl. change (root_hist [h0]) with h0.
+    set (spec := set_patterns (latest_patterns (lh_gens h0)) ip (pattern_file_lines ifl)).
+    set (evs := events spec [] t).
+    assert (Hvalid : all_R Rval (recs (fst (fold_left (process_event Hb matches C [h0] (sort_fmts req) no_dh spec t) evs ([], 0))))).
+    { apply fold_events_R_exact.
+      - apply ev_paths_NoDup. exact Hwf.
+      - intros r [].
+      - intros r [].
+      - intros p c Hin. split; [|apply seal_Rval].
+        eapply files_nonempty. apply files_of_ev_files. exists c. exact Hin.
+      - intros p _ Hn. exfalso. apply has_action_In in Hn. destruct Hn as [e [He Ha]].
+        destruct (dir_entries Hb matches C no_dh spec (sort_fmts req) p t) as [es|] eqn:Ed; [|destruct He].
+        rewrite (dir_entries_no_action Hb matches C no_dh spec (sort_fmts req) p t es e Ed He) in Ha. discriminate. }
+    match goal with |- context [fold_left ?f ?l ?i] =>
+      pose proof (Hvalid : all_R Rval (recs (fst (fold_left f l i)))) as Hv2; clear Hvalid; destruct (fold_left f l i) as [sess fails] end.
+    cbn [fst] in Hv2. cbn [dr_sess dr_abort dr_found snd o_outcome]. rewrite orb_false_r.
+    destruct (cs_abort C (commit C cdig ser [h0] InPlace t sess spec)) eqn:Ea.
+    { exfalso. destruct (commit_flat_abort C cdig ser h0 t sess spec h0_root Ea) as [v [Es Ev]].
+      destruct (validate_records_Rval (recs sess) Hv2) as [rs' Hrs]. unfold recs, sess_list in Hrs. rewrite Es in Hrs. congruence. }
+    destruct (Nat.ltb 0 fails); [discriminate|]. destruct (sorted_paths _); [destruct (missing_history_folders C [h0] t)|]; discriminate.
+  Qed.
+End Flat3.
+
+(* ---- C03, detection end to end on a flat tree: the history `old` was consistent with the tree `kids` (flat_ok) and
+   the tree is now `kids'` ---- *)
+Section FlatDetect.
+  Variable Hb : fmt -> bytes -> bytes.
+  Variable matches : list text -> text -> bool.
+  Variable C : Type.
+  Variable cdig : C -> text.
+  Notation node := (node C).
+  Notation events := (events matches C).
+
+  Lemma reference_flat (h : lhist) p : lh_root h = [] ->
+    (forall g r, In g (lh_gens h) -> In r (g_records g) -> r_prev r = None) ->
+    reference [h] p = find_original (lh_gens h) p.
+  Proof.
+    intros Hr Hprev. unfold reference. change (root_hist [h]) with h.
+    assert (Hrt : route [h] h p = h) by (unfold route; cbn [fold_left]; unfold better; rewrite Nat.ltb_irrefl, andb_false_r; reflexivity).
+    rewrite Hrt, Hr. assert (Hsp : strip_prefix [] p = p) by (destruct p; reflexivity). rewrite Hsp.
+    rewrite (prev_steps_id _ p Hprev). reflexivity.
+  Qed.
+  Lemma verify_total is_diff t ipats ifile hs : load C cdig t = inl hs -> lh_gens (root_hist hs) <> [] ->
+    exists r, verify_result Hb matches C cdig is_diff t ipats ifile = Some r.
+  Proof.
+    intros Hl Hg. unfold verify_result, verify_like. rewrite Hl. destruct (lh_gens (root_hist hs)) as [|g gs]; [congruence|].
+    cbn [snd o_outcome]. eauto.
+  Qed.
+  Lemma visited_exists spec t q : wf_tree C t -> is_dir C t = true -> In q (visited (events spec [] t)) -> get C t q <> None.
+  Proof.
+    intros Hwf Hd Hq. rewrite visited_reported in Hq.
+    destruct (proj1 (reported_are_events matches C spec t [] q Hd) (or_intror Hq)) as [H|H].
+    - apply files_of_ev_files in H. destruct H as [c Hc]. destruct (ev_files_get matches C spec t [] q c Hwf Hc) as [rel [E Hg]]. cbn in E. subst. congruence.
+    - destruct (ev_dirs_get matches C spec t [] q Hwf H) as [rel [h [k [E Hg]]]]. cbn in E. subst. congruence.
+  Qed.
+
+  Section Changed.
+    Variables (n : nat) (old : hist C) (kids kids' : list (text * node)).
+    Let t := Dir (Some old) kids.
+    Let t' := Dir (Some old) kids'.
+    Let h := lhist_of C [] None (Some old).
+    Hypothesis Hok : flat_ok Hb C cdig n old kids.
+    Hypothesis Hwf' : wf_tree C t'.
+    Hypothesis Hl' : load C cdig t' = inl [h].
+    Hypothesis Hn : n <> 0.
+
+    Lemma flat_gens_nonempty : lh_gens (root_hist [h]) <> [].
+    Proof.
+      change (lh_gens (root_hist [h])) with (loaded_gens C old). destruct Hok as [Hw _].
+      destruct (reload_ascending C cdig n old Hw) as [Hnums _]. intros E. rewrite E in Hnums. destruct n; [congruence|].
+      rewrite nums_S in Hnums. cbn in Hnums. destruct (nums n0); discriminate.
+    Qed.
+    Lemma flat_reference p : reference [h] p = find_original (loaded_gens C old) p.
+    Proof. apply (reference_flat h p eq_refl). destruct Hok as [_ [_ [[Hp _] _]]]. exact Hp. Qed.
+
+    (* a recorded file whose bytes changed (and whose digest in the reference's format changed with them -- otherwise
+       the two contents are a collision of the primitive) is named by verify, which exits 11 *)
+    Theorem flat_altered_detected ipats ifile p c c' e :
+      get C t p = Some (File c) -> find_original (loaded_gens C old) p = Some e ->
+      In (p, c') (ev_files (events (set_patterns (latest_patterns (loaded_gens C old)) ipats (pattern_file_lines ifile)) [] t')) ->
+      digest_text Hb (e_fmt e) c' <> digest_text Hb (e_fmt e) c ->
+      exists r, verify_result Hb matches C cdig false t' ipats ifile = Some r /\ vr_code r = 11%Z /\ In p (vr_mismatch r).
+    Proof.
+      intros Hg Hfo Hin Hd.
+      destruct (verify_total false t' ipats ifile [h] Hl' flat_gens_nonempty) as [r Hr]. exists r. split; [exact Hr|].
+      assert (Hp : p <> []) by (intros ->; cbn in Hg; discriminate).
+      assert (He : e_digest e = digest_text Hb (e_fmt e) c).
+      { destruct Hok as [_ [_ [Hall _]]]. apply (reference_matches Hb C (loaded_gens C old) t p c e Hp (hist_all_ok Hb C _ _ Hall) Hfo Hg). }
+      apply (altered_file_detected Hb matches C cdig t' [h] ipats ifile p c' e r Hl' Hin).
+      - rewrite flat_reference. exact Hfo.
+      - rewrite He. intros E. apply Hd. symmetry. exact E.
+      - exact Hr.
+    Qed.
+
+    (* a file that no generation records is named as new; verify exits 21 unless something else was altered *)
+    Theorem flat_new_detected ipats ifile p c' :
+      find_original (loaded_gens C old) p = None ->
+      In (p, c') (ev_files (events (set_patterns (latest_patterns (loaded_gens C old)) ipats (pattern_file_lines ifile)) [] t')) ->
+      exists r, verify_result Hb matches C cdig false t' ipats ifile = Some r /\
+        In p (vr_new r) /\ (vr_code r = 11%Z \/ vr_code r = 21%Z) /\ (vr_mismatch r = [] -> vr_code r = 21%Z).
+    Proof.
+      intros Hfo Hin.
+      destruct (verify_total false t' ipats ifile [h] Hl' flat_gens_nonempty) as [r Hr]. exists r. split; [exact Hr|].
+      apply (new_file_detected Hb matches C cdig t' [h] ipats ifile p c' r Hl' Hin); [|exact Hr].
+      rewrite flat_reference. exact Hfo.
+    Qed.
+
+    (* a recorded path that is gone (and not ignored) is named as missing; verify exits non-zero, 10 unless 11 / 21 take
+       precedence *)
+    Theorem flat_removed_detected ipats ifile g r0 :
+      In g (loaded_gens C old) -> In r0 (g_records g) -> get C t' (r_path r0) = None ->
+      ignored matches (set_patterns (latest_patterns (loaded_gens C old)) ipats (pattern_file_lines ifile)) (r_path r0) = false ->
+      exists r, verify_result Hb matches C cdig false t' ipats ifile = Some r /\
+        In (r_path r0) (vr_missing r) /\ vr_code r <> 0%Z /\ (vr_mismatch r = [] -> vr_new r = [] -> vr_code r = 10%Z).
+    Proof.
+      intros Hg Hr0 Hgone Hign.
+      destruct (verify_total false t' ipats ifile [h] Hl' flat_gens_nonempty) as [r Hr]. exists r. split; [exact Hr|].
+      apply (missing_entry_detected Hb matches C cdig t' [h] ipats ifile (r_path r0) r Hl'); [| |exact Hign|exact Hr].
+      - apply (expected_flat h eq_refl); [destruct Hok as [_ [_ [[Hp _] _]]]; exact Hp|]. exists g, r0. auto.
+      - intros Hv. apply (visited_exists _ t' (r_path r0) Hwf' eq_refl) in Hv. congruence.
+    Qed.
+    (* ... and create, asked for a format f that is recorded for the file, exits 11 (never an abort on a flat tree) *)
+    Theorem flat_altered_create_11 (ser : gen -> C) req no_dh ip ifl p c c' f e0 :
+      get C t p = Some (File c) -> find_original (loaded_gens C old) p <> None ->
+      In f req -> find_first (loaded_gens C old) p f = Some e0 ->
+      In (p, c') (ev_files (events (set_patterns (latest_patterns (loaded_gens C old)) ip (pattern_file_lines ifl)) [] t')) ->
+      digest_text Hb f c' <> digest_text Hb f c ->
+      o_outcome (snd (create_folder Hb matches C cdig ser t' req no_dh false ip ifl)) = Exit 11.
+    Proof.
+      intros Hg Hfo Hreq Hff Hin Hd.
+      assert (Hp : p <> []) by (intros ->; cbn in Hg; discriminate).
+      pose proof (create_flat_never_aborts Hb matches C cdig ser h eq_refl eq_refl t' req no_dh ip ifl Hwf' eq_refl Hl') as Hna.
+      destruct (create_exit_11_iff Hb matches C cdig ser t' req no_dh ip ifl [h] Hl') as [Ha|Hiff]; [contradiction|].
+      apply Hiff. exists (p, c'). split; [exact Hin|].
+      unfold file_failures. cbn [fst snd]. change (root_hist [h]) with h.
+      assert (Hrt : route [h] h p = h) by (unfold route; cbn [fold_left]; unfold better; rewrite Nat.ltb_irrefl, andb_false_r; reflexivity).
+      rewrite Hrt. change (lh_root h) with (@nil text). assert (Hsp : strip_prefix [] p = p) by (destruct p; reflexivity). rewrite Hsp.
+      change (lh_gens h) with (loaded_gens C old).
+      set (dg := fun f0 => digest_text Hb f0 c').
+      assert (He0 : e_digest e0 = digest_text Hb f c).
+      { destruct Hok as [_ [_ [Hall _]]]. pose proof (hist_all_consistent Hb C _ t p c Hp Hall Hg) as Hc.
+        rewrite (Hc e0 (find_first_recorded _ _ _ _ Hff)), (find_first_fmt _ _ _ _ Hff). reflexivity. }
+      assert (Hdec : decide (loaded_gens C old) p dg f = Failed).
+      { apply decide_failed. split; [exact Hfo|]. exists e0. split; [exact Hff|]. rewrite He0. unfold dg. intros E. apply Hd. symmetry. exact E. }
+      assert (Hreq' : In f (sort_fmts req)) by (apply sort_In; exact Hreq).
+      assert (Hres : In (f, false) (snd (seal (loaded_gens C old) p dg (sort_fmts req)))).
+      { rewrite seal_results. apply in_or_app. left. apply in_map_iff. exists f. split; [rewrite Hdec; reflexivity|].
+        apply filter_In. split; [|apply memf_In; exact Hreq'].
+        unfold carried. apply filter_In. split.
+        - apply existing_formats_In. rewrite Hff. discriminate.
+        - apply memf_In. apply (to_generate_req (loaded_gens C old) p dg (sort_fmts req) f Hreq'). }
+      intros Hz. apply length_zero_iff_nil in Hz.
+      assert (Hin' : In (f, false) (filter (fun r : fmt * bool => negb (snd r)) (snd (seal (loaded_gens C old) p dg (sort_fmts req))))) by (apply filter_In; split; [exact Hres|reflexivity]).
+      rewrite Hz in Hin'. destruct Hin'.
+    Qed.
+    (* diff: new files give 21 (10 if something is missing as well), a removed entry gives 10 *)
+    Theorem flat_new_detected_diff ipats ifile p c' :
+      find_original (loaded_gens C old) p = None ->
+      In (p, c') (ev_files (events (set_patterns (latest_patterns (loaded_gens C old)) ipats (pattern_file_lines ifile)) [] t')) ->
+      exists r, verify_result Hb matches C cdig true t' ipats ifile = Some r /\
+        In p (vr_new r) /\ (vr_code r = 10%Z \/ vr_code r = 21%Z) /\ (vr_missing r = [] -> vr_code r = 21%Z).
+    Proof.
+      intros Hfo Hin.
+      destruct (verify_total true t' ipats ifile [h] Hl' flat_gens_nonempty) as [r Hr]. exists r. split; [exact Hr|].
+      apply (diff_new_file_detected Hb matches C cdig t' [h] ipats ifile p c' r Hl' Hin); [|exact Hr].
+      rewrite flat_reference. exact Hfo.
+    Qed.
+    Theorem flat_removed_detected_diff ipats ifile g r0 :
+      In g (loaded_gens C old) -> In r0 (g_records g) -> get C t' (r_path r0) = None ->
+      ignored matches (set_patterns (latest_patterns (loaded_gens C old)) ipats (pattern_file_lines ifile)) (r_path r0) = false ->
+      exists r, verify_result Hb matches C cdig true t' ipats ifile = Some r /\ In (r_path r0) (vr_missing r) /\ vr_code r = 10%Z.
+    Proof.
+      intros Hg Hr0 Hgone Hign.
+      destruct (verify_total true t' ipats ifile [h] Hl' flat_gens_nonempty) as [r Hr]. exists r. split; [exact Hr|].
+      apply (diff_missing_entry_detected Hb matches C cdig t' [h] ipats ifile (r_path r0) r Hl'); [| |exact Hign|exact Hr].
+      - apply (expected_flat h eq_refl); [destruct Hok as [_ [_ [[Hp _] _]]]; exact Hp|]. exists g, r0. auto.
+      - intros Hv. apply (visited_exists _ t' (r_path r0) Hwf' eq_refl) in Hv. congruence.
+    Qed.
+    (* create: a removed entry gives 10 and is named, unless a format failed as well (11); never an abort *)
+    Theorem flat_removed_create (ser : gen -> C) req no_dh ip ifl g r0 :
+      In g (loaded_gens C old) -> In r0 (g_records g) -> get C t' (r_path r0) = None ->
+      ignored matches (set_patterns (latest_patterns (loaded_gens C old)) ip (pattern_file_lines ifl)) (r_path r0) = false ->
+      let o := snd (create_folder Hb matches C cdig ser t' req no_dh false ip ifl) in
+      o_outcome o = Exit 11 \/ (o_outcome o = Exit 10 /\ In (r_path r0) (o_missing o)).
+    Proof.
+      intros Hg Hr0 Hgone Hign. cbn zeta.
+      pose proof (create_flat_never_aborts Hb matches C cdig ser h eq_refl eq_refl t' req no_dh ip ifl Hwf' eq_refl Hl') as Hna.
+      destruct (create_missing_entry_detected Hb matches C cdig ser t' req no_dh ip ifl [h] (r_path r0) Hl') as [Ha|H]; auto.
+      - apply (expected_flat h eq_refl); [destruct Hok as [_ [_ [[Hp _] _]]]; exact Hp|]. exists g, r0. auto.
+      - intros Hv. apply (visited_exists _ t' (r_path r0) Hwf' eq_refl) in Hv. congruence.
+      - contradiction.
+    Qed.
+  End Changed.
+End FlatDetect.
